@@ -7,6 +7,8 @@ Definition hWww : bytes := bs "Www-Authenticate".
 Definition hCookie : bytes := bs "Cookie".
 Definition hCookie2 : bytes := bs "Cookie2".
 Definition hToken : bytes := bs "X-Token".
+(* the five counts in that order (compact form used by the case files) *)
+Definition H (l : list nat) : hdrs := combine [hAuth; hWww; hCookie; hCookie2; hToken] l.
 
 Inductive c11_case :=
 | HostCase (input obs_hostname obs_domain : bytes)
